@@ -366,8 +366,8 @@ pub fn record(args: &[String]) -> i32 {
         inflight.set(i, &doc);
         // is the document acceptable to the implementation's own validator? (decides only whether the
         // unchecked variants are *called*; whether their results are *judged* is decided by the spec)
-        let wf = sonic_rs::from_slice::<serde::de::IgnoredAny>(&doc).is_ok();
-        let parsed = sonic_rs::from_slice::<Value>(&doc).ok();
+        let wf = catch(|| sonic_rs::from_slice::<serde::de::IgnoredAny>(&doc).is_ok()).unwrap_or(false);
+        let parsed = catch(|| sonic_rs::from_slice::<Value>(&doc).ok()).unwrap_or(None);
         let mut paths: Vec<Vec<PE>> = Vec::new();
         if let Some(p) = spath { paths.push(p); }
         for _ in 0..2 { paths.push(match &parsed { Some(v) if rng.chance(4, 5) => random_path(&mut rng, v), _ => blind_path(&mut rng) }); }
